@@ -117,12 +117,37 @@ def _is_drop_flag(b, l):
 
 # values computed differently per mode that flow out of the region, with the reason they cannot
 # change accept/reject
+# (function, role of the escaping local) — roles are decided from the local's type and defining expressions, not its name
 ESCAPE_OK = {
-    (PS + "::advance_parser", "lexeme"): "payload only: mk_lexeme vs Lexeme::just_idx carry the same lexeme index; the bytes are "
-                                         "read only for captures/row_infos, which exist in definitive mode only",
-    (PS + "::advance_parser", "scan_res"): "row re-use shortcut, sound under the rows_valid_end discipline (C11-R3)",
-    (SCR + "::log_enabled", "_0"): "the mode accessor itself; branches on its result are checked like branches on the flag",
+    (PS + "::advance_parser", "lexeme-payload"): "payload only: mk_lexeme vs Lexeme::just_idx carry the same lexeme index; the bytes are "
+                                                 "read only for captures/row_infos, which exist in definitive mode only",
+    (PS + "::advance_parser", "scan-result"): "row re-use shortcut, sound under the rows_valid_end discipline (C11-R3)",
+    (SCR + "::log_enabled", "return"): "the mode accessor itself; branches on its result are checked like branches on the flag",
 }
+
+
+def _escape_role(b, l):
+    """role of a local that is defined inside a mode-controlled region and used outside it"""
+    if l == 0:
+        return "return"
+    ty = b.local_ty(l)
+    ds = b.defs().get(l, [])
+    if ty == "llguidance::earley::lexerspec::Lexeme" and ds and all(
+            k == "call" and p["f"].get("def") in (PS + "::mk_lexeme", "llguidance::earley::lexerspec::Lexeme::just_idx") for (_, _, k, p) in ds):
+        return "lexeme-payload"
+    if ty == "bool" and ds:
+        def ok(k, p):
+            if k == "call":
+                return p["f"].get("def") == PS + "::scan"
+            if k == "assign" and p["rv"] == "use":
+                if "iv" in p["o"]:
+                    return True
+                src = F.op_place(p["o"])
+                return bool(src) and len(src) == 1 and _escape_role(b, src[0]) == "scan-result"
+            return False
+        if all(ok(k, p) for (_, _, k, p) in ds):
+            return "scan-result"
+    return b.local_name(l)
 
 
 both_reach_return = L.both_reach_return
@@ -240,7 +265,7 @@ def run(ctx):
                       site=b.where(min(reg)))
             dd = _defs_in(b, reg)
             esc = sorted(l for l in (dd & (_uses(b, b.live_blocks() - reg) | {0})) if not _is_drop_flag(b, l))
-            bad_esc = [l for l in esc if (bid, b.local_name(l)) not in ESCAPE_OK]
+            bad_esc = [l for l in esc if (bid, _escape_role(b, l)) not in ESCAPE_OK]
             ctx.check(not rets and not bad_esc, "C01-R2", inst + ":no-result",
                       "region neither returns nor defines a value used outside it%s"
                       % ("" if not esc else " (reasoned exceptions: %s)" % [b.local_name(l) for l in esc]),
@@ -285,6 +310,7 @@ def run(ctx):
     # its soundness condition (shared with C10-R4)
     from . import c10 as _c10
     _c10.subsume_operands(ctx, "C01-R5")
+    _c10.subsume_guard(ctx, "C01-R5")
 
     # ------------------------------------------------------------------ R3 EOS guard
     cm = ctx.body(TP + "::compute_mask_inner")
